@@ -280,33 +280,51 @@ Proof.
     destruct e; simpl in *; try discriminate. destruct w; try discriminate. destruct l; auto; discriminate.
 Qed.
 
-(** a helper that is about to read holds a current job *)
-Lemma reader_facts : forall s c, Inv N parent s -> hlp c -> reads_now s c = true ->
-  job (th s c) <> (-1)%Z /\ acks c (qu s 0) = 0 /\
-  ~ (StopP s /\ ae (th s c) = se (th s 0)) /\ ~ master_idle s /\ search s = true.
+(** a helper that is about to read holds a current job: no communicator above it holds or has
+    taken an acknowledgement of the current round from its branch *)
+Lemma reader_facts : forall s d, Inv N parent s -> hlp d -> reads_now s d = true ->
+  job (th s d) <> (-1)%Z /\
+  (forall c pp, hlp c -> parent c = Some pp -> below c d ->
+     acks c (qu s pp) = 0 /\ ~ ackdone s pp c) /\
+  ~ master_idle s /\ search s = true.
 Proof.
-  intros s c (I & J & L) Hc Hr. unfold reads_now in Hr.
-  destruct (pc (th s c)) eqn:Hpc; try discriminate. destruct k; try discriminate.
+  intros s d (I & J & L) Hd Hr. unfold reads_now in Hr.
+  destruct (pc (th s d)) eqn:Hpc; try discriminate. destruct k; try discriminate.
   apply andb_prop in Hr. destruct Hr as (_ & Hj). apply negb_true_iff, Z.eqb_neq in Hj.
-  destruct (j_j1 _ _ J c Hc Hj) as ([S1|S1] & _); [|rewrite Hpc in S1; discriminate].
-  destruct (e_g2 _ _ _ I c Hc) as (G1 & G2 & G3).
+  destruct (j_j1 _ _ J d Hd Hj) as ([S1|S1] & _); [|rewrite Hpc in S1; discriminate].
   destruct (e_phase _ _ _ I) as (ph & E1 & E2).
   assert (NI : ~ master_idle s).
-  { intros Hi. destruct (no_stale_search_inv N parent (flat_tree N parent Hflat) s (conj I (conj J L)) Hi c Hc) as (X & _).
+  { intros Hi. destruct (no_stale_search_inv N parent Htree s (conj I (conj J L)) Hi d Hd) as (X & _).
     congruence. }
-  split; auto. split; [|split; [|split; auto]].
-  - destruct (acks c (qu s 0)) eqn:Ea; auto. exfalso.
-    pose proof (e_w3 _ _ _ I c 0 Hc (Hflat c Hc) ltac:(lia)) as W3.
-    destruct ph; simpl in E2; lia.
-  - intros (Hs & Ha). unfold StopP in Hs. rewrite Hs in E1. injection E1 as <-. simpl in E2. lia.
+  split; auto. split; [|split; auto].
+  - intros c pp Hc Hpp Bc.
+    destruct (e_g2 _ _ _ I c Hc) as (G1 & G2 & G3).
+    destruct (e_g1 _ _ _ I c (helper_le _ _ Hc)) as (_ & G4).
+    pose proof (inv_child_le N parent s c pp I Hc Hpp) as CL.
+    destruct (parent_le N parent Htree c pp Hc Hpp) as (HppN & _).
+    destruct (e_g1 _ _ _ I pp HppN) as (_ & G5).
+    assert (G6 : ae (th s 0) <= ae (th s pp)).
+    { destruct pp as [|p']; auto. apply (e_g2 _ _ _ I (S p')). unfold WorkersInv.helper in *; lia. }
+    split.
+    + destruct (acks c (qu s pp)) eqn:Ea; auto. exfalso.
+      pose proof (e_w3 _ _ _ I c pp Hc Hpp ltac:(lia)) as W3.
+      destruct ph; simpl in E2; try lia.
+      assert (Ac : ae (th s c) = se (th s c)) by lia.
+      destruct (sub_settled N parent s c I Hc Ac d Bc). lia.
+    + intros (R1 & R2 & R3).
+      assert (Ac : ae (th s c) = se (th s c)) by lia.
+      destruct (sub_settled N parent s c I Hc Ac d Bc).
+      destruct ph; simpl in E2; lia.
   - destruct (search s) eqn:Es; auto. exfalso. apply NI. apply nosearch_idle; auto.
 Qed.
 
-(** ---- the invariant is inductive ---- *)
 Lemma Wr_nil : forall p, ~ Wr [] p.
 Proof. intros p (e & He & _). destruct p; discriminate. Qed.
 Lemma Rd_nil : forall c p, ~ Rd [] c p.
 Proof. intros c p (e & He & _). destruct p; discriminate. Qed.
+
+Lemma RdSub_nil : forall c p, ~ RdSub [] c p.
+Proof. intros c p (d & _ & X). eapply Rd_nil; eauto. Qed.
 
 Lemma HR_init : HR xinit [].
 Proof.
@@ -317,8 +335,8 @@ Proof.
   - intros c j _ [].
   - intros c _ _ p X. exfalso. eapply Wr_nil; eauto.
   - intros p q c _ X. exfalso. eapply Wr_nil; eauto.
-  - intros c _ _ p X. exfalso. eapply Rd_nil; eauto.
-  - intros c _ _ _ _ p X. exfalso. eapply Rd_nil; eauto.
+  - intros c pp _ _ _ p X. exfalso. eapply RdSub_nil; eauto.
+  - intros c pp _ _ _ p X. exfalso. eapply RdSub_nil; eauto.
   - intros _ c p _ X. exfalso. eapply Rd_nil; eauto.
   - intros _ c p _ X. exfalso. eapply Rd_nil; eauto.
   - intros p q c _ _ X. exfalso. eapply Rd_nil; eauto.
@@ -339,8 +357,8 @@ Proof.
   - intros k e A S1 Hh. exfalso. destruct (HB k e A) as (_ & X). now apply X.
   - intros c j Hc Hin. left. exists j. now rewrite Equ in Hin.
   - intros c Hc Hj. left. now rewrite Eth in Hj.
-  - intros c Hc Hk. left. now rewrite Equ in Hk.
-  - intros c Hc Hs Ha Hk. left. unfold StopP in *. rewrite Eth, Equ in *. auto.
+  - intros c pp Hc Hpp Hk. left. now rewrite Equ in Hk.
+  - intros c pp Hc Hpp Hd. left. unfold ackdone in *. rewrite Eth, Equ in *. auto.
   - intros Hi. left. unfold master_idle in *. now rewrite Eth in Hi.
   - intros S0. left. congruence.
 Qed.
@@ -375,7 +393,6 @@ Lemma HR_thread : forall x tr t a s', xreach x tr -> HR x tr ->
   HR (mkX s' (xpend x) (xfin x) (eo_next x (LT t a))) (tr ++ act_events parent (base x) t a).
 Proof.
   intros x tr t a s' XR H Hl Hidle.
-  pose proof (flat_tree N parent Hflat) as Htree.
   pose proof (xreach_HI N parent x tr XR) as HIv.
   pose proof (reach_inv N parent Htree _ (xreach_reach x tr XR)) as IV.
   destruct IV as (I & J & L).
@@ -404,7 +421,7 @@ Proof.
     apply negb_true_iff, Nat.eqb_neq in Et. destruct t as [|t]; [congruence|].
     assert (Hc : hlp (S t)) by (unfold WorkersInv.helper; lia).
     pose proof (read_step _ _ _ Hl Er) as Es'.
-    destruct (reader_facts s (S t) (conj I (conj J L)) Hc Er) as (Rj & Ra & Rs & Ri & Rse).
+    destruct (reader_facts s (S t) (conj I (conj J L)) Hc Er) as (Rj & Ra & Ri & Rse).
     assert (Eq : qu s' = qu s) by (rewrite Es'; reflexivity).
     assert (Esr : search s' = search s) by (rewrite Es'; reflexivity).
     assert (Eth : forall c, job (th s' c) = job (th s c) /\ ae (th s' c) = ae (th s c) /\
@@ -412,22 +429,26 @@ Proof.
     { intros c. rewrite Es'. simpl. unfold upd. destruct (Nat.eqb_spec c (S t)) as [->|]; simpl; auto.
       repeat split; auto. congruence. }
     assert (E0 : th s' 0 = th s 0) by (apply (Eth 0); discriminate).
+    assert (Ead : forall pp c, ackdone s' pp c -> ackdone s pp c).
+    { intros pp c (D1 & D2 & D3). unfold ackdone. rewrite Eq in D3.
+      destruct (Eth pp) as (_ & A1 & S1 & _). destruct (Eth c) as (_ & A2 & _).
+      rewrite A1, S1 in D1. rewrite A2, S1 in D2. auto. }
     apply (HR_mono x tr _ B (S t) H); cbn [base xeo]; auto.
     + intros k e A. now destruct (BT k e A).
     + intros c Hc'. destruct (Nat.eq_dec c (S t)) as [->|Hne].
-      * right. split; auto. split; [apply (r_a3 _ _ H (S t) Hc Rj)|].
-        split; [rewrite Eq; exact Ra|]. split; [|split].
-        -- intros (S1 & A1). apply Rs. unfold StopP in *. rewrite E0 in *.
-           destruct (Eth (S t)) as (_ & A2 & _). rewrite A2 in A1. auto.
-        -- unfold master_idle in *. now rewrite E0.
-        -- congruence.
+      * right. split; auto. split; [apply (r_a3 _ _ H (S t) Hc (or_introl Rj))|].
+        split; [|split].
+        -- intros c pp Hc1 Hpp Bc. cbn [base]. destruct (Ra c pp Hc1 Hpp Bc) as (K & D).
+           split; [rewrite Eq; exact K | intros X; apply D; apply Ead; exact X].
+        -- cbn [base]. unfold master_idle in *. now rewrite E0.
+        -- cbn [base]. congruence.
       * left. intros k e A T. destruct (BT k e A) as (T' & _). congruence.
     + intros k e A Ss _. destruct (act_block s (S t) APollEmpty k e A) as (_ & _ & X). now destruct (X Ss).
     + intros c j _ Hin. left. exists j. now rewrite Eq in Hin.
-    + intros c _ Hj. left. destruct (Eth c) as (Jc & _). now rewrite Jc in Hj.
-    + intros c _ Hk. left. now rewrite Eq in Hk.
-    + intros c _ S1 A1 K1. left. unfold StopP in *. rewrite E0, Eq in *.
-      destruct (Eth c) as (_ & A2 & _). rewrite A2 in A1. auto.
+    + intros c _ Hj. left. destruct (Eth c) as (Jc & _ & _ & Oc). rewrite Jc in Hj.
+      destruct Hj as [Hj|Hj]; auto. destruct (Nat.eq_dec c (S t)) as [->|Hne]; [left; exact Rj|].
+      right. now rewrite (Oc Hne) in Hj.
+    + intros c pp _ _ Hk. left. now rewrite Eq in Hk.
     + intros Hi. left. unfold master_idle in *. now rewrite E0 in Hi.
     + intros S0. left. congruence.
   - (* every other transition: no helper access to the options / table *)
@@ -445,40 +466,53 @@ Proof.
     + intros k e A. now destruct (BT k e A).
     + intros k e A Ss Hh. exfalso. destruct (BT k e A) as (T & _).
       rewrite T in Hh. rewrite (NRall t Hh k e A T) in Ss. discriminate.
-    + (* START_SEARCH pushed by the busy engine thread *)
-      intros c j Hc Hin.
-      destruct (start_queue_frame N parent Hflat s (LT t a) s' c j I Hc Hl Hin) as [X|(X & Hb)].
+    + (* START_SEARCH pushed by the parent, which has seen all writes *)
+      intros c j Hc Hin. destruct (Htree c Hc) as (pp & Hpp & _).
+      destruct (start_queue_frame N parent Htree s (LT t a) s' c pp j I Hc Hpp Hl Hin) as [X|(X & Hf)].
       * left. eauto.
       * right. injection X as -> ->. intros p Hp.
-        apply (relq_make tr B 0 (MQ c) p 5); [|reflexivity].
-        apply (busy_sees_writes x tr HIv H Hb p Hp).
+        apply (relq_make tr B pp (MQ c) p 5); [|reflexivity].
+        destruct pp as [|p'].
+        -- apply (busy_sees_writes x tr HIv H); auto. fold s.
+           destruct (pc (th s 0)); try discriminate. destruct w; try discriminate. reflexivity.
+        -- apply (r_a3 _ _ H (S p')); auto. unfold WorkersInv.helper; lia.
     + (* START_SEARCH taken by the helper *)
       intros c Hc Hj.
-      destruct (job_frame N parent Hflat s (LT t a) s' c I Hc Hl Hj) as [X|(X & j & r & Hq)].
+      destruct (job_frame N parent s (LT t a) s' c I Hc Hl Hj) as [X|(X & j & r & Hq)].
       * left; auto.
       * right. injection X as -> ->. intros p Hp.
         apply (relq_seen tr B (MQ c) p 0 c); [|reflexivity].
         apply (r_a2 _ _ H c j Hc); auto. fold s. rewrite Hq. left; auto.
-    + (* STOP_ACK pushed by the helper *)
-      intros c Hc Hk.
-      destruct (ack_frame N parent Hflat s (LT t a) s' c I Hc Hl Hk) as [X|X].
+    + (* STOP_ACK pushed by the helper: it has seen the reads of its whole sub-tree *)
+      intros c pp Hc Hpp Hk.
+      destruct (ack_frame N parent s (LT t a) s' c pp I Hc Hpp Hl Hk) as [X|(X & Hsa)].
       * left; auto.
-      * right. injection X as -> ->. intros p (e & He & Te & Se).
-        apply (relq_make tr B c (MQ 0) p 5); [|reflexivity]. eapply seenby_own; eauto.
-    + (* STOP_ACK taken by the engine thread *)
-      intros c Hc S1 A1 K1.
-      destruct (acked_frame N parent Hflat s (LT t a) s' c I Hc Hl S1 A1 K1) as [X|(X & r & Hq)].
+      * right. injection X as -> ->. intros p (d & Bd & Rd').
+        apply (relq_make tr B c (MQ pp) p 5); [|reflexivity].
+        destruct (below_top N parent c d Bd) as [->|(h & Hh & Hhp & Bh)].
+        -- destruct Rd' as (e & He & Te & _). eapply seenby_own; eauto.
+        -- destruct (e_a2 _ _ _ I c Hc Hsa) as (_ & W & R).
+           destruct (child_settled N parent s c h I (helper_le _ _ Hc) W Hh Hhp) as (A1 & _ & K1).
+           apply (r_b2 _ _ H h c Hh Hhp); [|exists d; auto].
+           unfold ackdone. fold s. auto.
+    + (* STOP_ACK taken by the parent *)
+      intros c pp Hc Hpp Hd.
+      destruct (acked_frame N parent Htree s (LT t a) s' c pp I Hc Hpp Hl Hd) as [X|(X & r & Hq)].
       * left; auto.
       * right. injection X as -> ->. intros p Hp.
-        apply (relq_seen tr B (MQ 0) p 0 0); [|reflexivity].
-        apply (r_b1 _ _ H c Hc); auto. fold s. rewrite Hq, acks_cons. simpl. rewrite Nat.eqb_refl. lia.
+        apply (relq_seen tr B (MQ pp) p 0 pp); [|reflexivity].
+        apply (r_b1 _ _ H c pp Hc Hpp); auto. fold s. rewrite Hq, acks_cons. simpl. rewrite Nat.eqb_refl. lia.
     + (* the barrier *)
       intros Hi. destruct (idle_frame N parent s (LT t a) s' I Hl Hi) as [X|(X & Hp & Hs & Hq)].
       * left; auto.
-      * right. intros c p Hc Hr. apply seenby_app.
+      * right. intros d p Hd Hr. apply seenby_app.
         unfold hasStopAck in Hs. apply andb_prop in Hs. destruct Hs as (Hw & _). apply Z.eqb_eq in Hw.
-        destruct (child_settled N parent s 0 c I (Nat.le_0_l _) Hw Hc (Hflat c Hc)) as (A1 & _ & K1).
-        apply (r_b2 _ _ H c Hc); auto. unfold StopP. fold s. now rewrite Hp.
+        destruct (below_root_child N parent Htree d d (le_n _) Hd) as (c & Hc & Hc0 & Bc).
+        destruct (child_settled N parent s 0 c I (Nat.le_0_l _) Hw Hc Hc0) as (A1 & _ & K1).
+        apply (r_b2 _ _ H c 0 Hc Hc0); [|exists d; auto].
+        unfold ackdone. fold s. split; auto.
+        destruct (e_phase _ _ _ I) as (ph & E1 & E2). rewrite Hp in E1. injection E1 as <-.
+        simpl in E2. lia.
     + (* search := false *)
       intros S0. destruct (lstep_search N parent _ _ _ Hl) as [X|[(p' & X & _)|(X & _)]].
       * left. fold s. rewrite <- X. exact S0.
@@ -495,7 +529,6 @@ Lemma HR_go : forall x tr p s', xreach x tr -> HR x tr ->
   HR (mkX s' (xpend x) (xfin x) (xeo x)) (tr ++ env_events N true (EGo p)).
 Proof.
   intros x tr p s' XR H Hl.
-  pose proof (flat_tree N parent Hflat) as Htree.
   pose proof (reach_inv N parent Htree _ (xreach_reach x tr XR)) as IV.
   destruct IV as (I & J & L).
   assert (Es' : search (base x) = false /\ s' = set_epc (set_ponder (set_search (base x) true) p) ENotifyGo).
@@ -523,7 +556,6 @@ Lemma HR_step : forall x tr xl x', xreach x tr -> HR x tr -> xstep x xl = Some x
   HR x' (tr ++ xevents x xl).
 Proof.
   intros x tr xl x' XR H Hst.
-  pose proof (flat_tree N parent Hflat) as Htree.
   destruct xl as [lb| | | |].
   - destruct (xstep_XL N parent _ _ _ Hst) as (s' & Hl & -> & Hgo & Hidle).
     change (xevents x (XL lb)) with (label_events N parent true (base x) lb).
@@ -632,9 +664,9 @@ Proof.
   - simpl in Q. enum_nth Q; simpl; unfold uci; lia.
 Qed.
 
-(** the model with a single-level communicator tree has no data race on any modelled location,
-    for any number of helper threads and any schedule *)
-Theorem model_drf_flat : forall ls tr,
+(** the model has no data race on any modelled location, for any number of helper threads, any
+    communicator tree and any schedule *)
+Theorem model_drf : forall ls tr,
   trace_of N parent true xinit ls = Some tr -> ~ race tr.
 Proof.
   intros ls tr Htr (i & j & a & b & Hij & Ha & Hb & Hc & _ & Hn).
